@@ -1155,7 +1155,9 @@ def _dedupe(failures):
 TRICKY_NAMES = ["p", "out", "e", "2", "o", "err", "1", "all", "a"]      # target names that are also operator parts
 
 
-def case_strategy():
+def case_strategy(avoid=frozenset()):
+    """avoid: ids of open findings whose shape is drawn only 1 time in 8 (so that the campaign explores the rest; the
+    avoided draws are listed in case["avoided"] and counted in excluded_known)."""
     from hypothesis import strategies as hs
 
     spell_by_class = {}
@@ -1176,8 +1178,18 @@ def case_strategy():
         compatible = draw(hs.sampled_from([True, True, False]))
         stages = []
         counter = [0]
+        avoided = []
 
-        def mk(cls, good_state):
+        def rarely(fid):
+            """True = keep the shape of open finding fid this time."""
+            if fid not in avoid:
+                return True
+            if draw(hs.integers(0, 7)) == 0:
+                return True
+            avoided.append(fid)
+            return False
+
+        def mk(cls, good_state, kind="ext"):
             k = counter[0]
             counter[0] += 1
             op = draw(hs.sampled_from(spell_by_class[cls]))
@@ -1197,10 +1209,15 @@ def case_strategy():
                     base = TRICKY_NAMES[k]
                 if state == "nodir":
                     base = "nd%d/%s" % (k, base)
-                red["tgt"] = {"name": base, "state": state, "form": form}
-                red["sp"] = sp
                 if op == "<" and draw(hs.sampled_from([False, False, True])):
                     red["prefix"] = True
+                if form in ("at", "atvar"):
+                    if red.get("prefix") and not rarely("C07-F8"):
+                        form = "plain" if " " not in base else "squote"
+                    elif not compatible and not rarely("C07-F7"):
+                        form = "plain" if " " not in base else "squote"
+                red["tgt"] = {"name": base, "state": state, "form": form}
+                red["sp"] = sp
             return red
 
         for i in range(n):
@@ -1208,7 +1225,7 @@ def case_strategy():
             redirs = []
             if compatible:
                 good = draw(hs.sampled_from([True, True, True, True, False]))
-                if i == 0 and draw(hs.sampled_from([False, False, True])):
+                if i == 0 and draw(hs.sampled_from([False, False, True])) and (kinds[i] != "unt" or rarely("C07-F6")):
                     redirs.append(mk("in", good))
                 if last:
                     oc = draw(hs.sampled_from(["none", "none", "out/w", "out/a", "o2e", "all/w", "all/a"]))
@@ -1249,7 +1266,10 @@ def case_strategy():
                     t["name"] = ("nd%d/" % k if nd else "") + base
                 k += 1
         cap = draw(hs.sampled_from(CAPS))
-        return {"cap": cap, "ts": ts, "stages": stages}
+        case = {"cap": cap, "ts": ts, "stages": stages}
+        if avoided:
+            case["avoided"] = sorted(avoided)
+        return case
 
     return cases()
 
@@ -1275,10 +1295,14 @@ def worker_generated(arg):
     _setup(scratch)
     st = Stats()
 
+    avoid = frozenset(_state["open"])
+
     def body(case):
         if _state.get("hangs", 0) >= MAX_HANGS:
             st.inconclusive += 1
             return
+        for fid in case.get("avoided", []):
+            st.excluded_known[fid] += 1
         f, labels, obs = check_generated(case)
         if "undefined" in labels:
             st.discards += 1
@@ -1292,7 +1316,7 @@ def worker_generated(arg):
                 st.excluded_known[f.finding] += 1
 
     try:
-        common.run_given(case_strategy(), body, seed, n)
+        common.run_given(case_strategy(avoid), body, seed, n)
         firsts = {}
         for f in st.failures:
             firsts.setdefault(f.bucket, f)
@@ -1311,7 +1335,7 @@ def worker_generated(arg):
                 g, _l, _o = check_generated(c)
                 return g is not None and g.bucket == _b
 
-            m = common.minimize(case_strategy(), still, seed, min(n, 300), seconds=10)
+            m = common.minimize(case_strategy(avoid), still, seed, min(n, 300), seconds=10)
             if m is not None:
                 g, _l, _o = check_generated(m)
                 if g is not None and _case_size(g) <= _case_size(f):
@@ -1429,7 +1453,7 @@ def main(run):
         common.pool_map(run, __name__, "worker_pairs", [(w, nw, run.seed, ppm, run.scratch) for w in range(nw)], procs=nw)
         run.extra["pairs_product"] = {"cases": sum(1 for _ in pair_cases()), "sampled_permille": ppm}
         common.pool_map(run, __name__, "worker_malformed", [run.scratch], procs=1)
-        per = run.n(500, 16000)
+        per = run.n(500, 28000)
         ngw = 12 if not thorough else 16
         common.pool_map(run, __name__, "worker_generated",
                         [(common.worker_seed(run.seed, 50 + w), per, run.scratch) for w in range(ngw)], procs=ngw)
